@@ -105,6 +105,62 @@ def rule_wrapper_release(repo: Repo, rep: Report) -> None:
            "AutoDetachObserver.dispose does not unconditionally dispose the stored source subscription")
 
 
+def rule_element_not_terminal(repo: Repo, rep: Report, rule: str) -> int:
+    """The element entry points of the observer wrappers (AutoDetachObserver.on_next, Observer.on_next) never stop or detach the
+    observer — on no path, exception handlers included: an observer stays subscribed until a terminal notification or its own
+    dispose()."""
+    n = 0
+    for rel, q in ((ADO, "AutoDetachObserver.on_next"), ("reactivex/observer/observer.py", "Observer.on_next")):
+        m = repo.fn(rel, q)
+        bad = []
+        for x in m.all_nodes():
+            if isinstance(x, (ast.Assign, ast.AugAssign)):
+                tg = x.targets if isinstance(x, ast.Assign) else [x.target]
+                bad += [short(x) for t in tg if isinstance(t, ast.Attribute) and t.attr == "is_stopped"]
+            if isinstance(x, ast.Call) and isinstance(x.func, ast.Attribute) and x.func.attr in ("dispose", "fail") and (dotted(x.func.value) or "").split(".")[0] == "self":
+                bad.append(short(x))
+        n += 1
+        rep.ob(rule, m, f"{q}: no stop / detach on any path ({len(bad)} found)", not bad,
+               f"{q} stops or detaches the observer ({'; '.join(bad)}): an observer whose element callback raised once is silently "
+               f"unsubscribed (removed from a Subject's observer list) although it never unsubscribed, and misses every later notification")
+    return n
+
+
+def rule_dependent_reference(repo: Repo, rep: Report, rule: str) -> int:
+    """The two wrappers that hand out dependents of a RefCountDisposable (add_ref, GroupedObservable) take the reference
+    (`r.disposable`, a property that increments the count) for *every* subscription — never skipped by a condition other than
+    "no RefCountDisposable was given" — and *before* they subscribe the wrapped sequence (a value replayed during that subscribe
+    may dispose the outer subscription: with the count still 0 the source is released under the live subscriber)."""
+    from ..model import is_subscribe_call
+    n_inst = 0
+    for rel, q, pi in (("reactivex/internal/utils.py", "add_ref", 1), ("reactivex/observable/groupedobservable.py", "GroupedObservable.__init__", 3)):
+        f = repo.fn(rel, q)
+        rp = f.params[pi]
+        for g in f.walk():
+            if not (g.is_func and g is not f):
+                continue
+            ss = list(sites(g))
+            takes = [x for x in ss if isinstance(x.node, ast.Attribute) and x.node.attr == "disposable" and isinstance(x.node.value, ast.Name) and x.node.value.id == rp]
+            subs = [x for x in ss if is_subscribe_call(x.node)]
+            if not subs:
+                continue
+            n_inst += 1
+            pos = lambda x: (x.stmt.lineno, x.stmt.col_offset, x.node.lineno, x.node.col_offset)
+            # a take may sit under a test of the RefCountDisposable parameter itself (None = nothing to count), under nothing else
+            own = lambda e: any(isinstance(x_, ast.Name) and x_.id == rp for x_ in ast.walk(e)) and not [a_ for a_ in ast.walk(e) if isinstance(a_, (ast.Attribute, ast.Call))]
+            extra = lambda t: {(u(e), p_) for e, p_ in t.ctx.guards if not own(e)}
+            ok = bool(takes)
+            for sb in subs:
+                sg = {(u(e), p_) for e, p_ in sb.ctx.guards}
+                if not any(pos(t) < pos(sb) and extra(t) <= sg for t in takes):
+                    ok = False
+            rep.ob(rule, g, f"{q}: `{rp}.disposable` taken for every subscription, before the wrapped sequence is subscribed", ok,
+                   f"{q} hands out a subscription to the wrapped sequence without first taking a dependent reference on the RefCountDisposable "
+                   f"(skipped under a condition, or taken after the subscribe): the source is released while this subscriber is still live "
+                   f"(outer subscription disposed earlier / during the subscribe, another dependent released)")
+    return n_inst
+
+
 def rule_refcount_outputs(repo: Repo, rep: Report) -> None:
     """Group / window observables handed downstream share the returned RefCountDisposable."""
     rep.rule("G1-addref", "in every subscribe function that creates a RefCountDisposable r, each value handed to "
@@ -121,6 +177,7 @@ def rule_refcount_outputs(repo: Repo, rep: Report) -> None:
     rep.ob("G1-addref", ar, "add_ref: r.disposable is taken inside the subscribe function (one reference per subscription)", ok,
            "add_ref takes its reference on the RefCountDisposable when the window is *created*, not when it is subscribed: a window that is "
            "handed downstream but never subscribed keeps the source (and the boundary / closing subscriptions) alive for ever")
+    rule_dependent_reference(repo, rep, "G1-addref")
     for f in sorted(m.l2_functions(), key=lambda f: f.ref):
         rvars = {}
         for g in f.walk():
